@@ -10,8 +10,12 @@ class InjectedIOError(OSError):
 
 
 class FaultFS:
-    def __init__(self, fail_at=None, partial=False, lose_on_close=False, exc=None):
+    def __init__(self, fail_at=None, partial=False, lose_on_close=False, exc=None, persist=False, count_reads=False):
         self.fail_at = fail_at
+        # persist: from the failing call on every further write fails too (a full disk), opens still succeed
+        self.persist = persist
+        # count_reads: an open for reading is a numbered event as well (a transient read failure)
+        self.count_reads = count_reads
         # what the failing call raises: an I/O error, or e.g. KeyboardInterrupt (the user's Ctrl-C arriving inside the call)
         self.exc = exc or InjectedIOError
         self.injected = False
@@ -38,6 +42,8 @@ class FaultFS:
             f = _File(self, open(path, mode), path)
             self.open_files.append(f)
             return f
+        if self.count_reads and self._event("open_r", path, {"mode": mode}):
+            raise self.exc("injected failure of open(%r, %r)" % (path, mode))
         return open(path, mode)
 
     def mkdirs(self, path):
@@ -59,6 +65,9 @@ class _File:
         self._fs, self._f, self._path = fs, f, path
 
     def write(self, data):
+        if self._fs.persist and self._fs.injected:
+            self._fs.events.append(("write", self._path, {"bytes": len(data), "refused": True}))
+            raise self._fs.exc("injected failure of write(%d bytes) to %r (the fault persists)" % (len(data), self._path))
         if self._fs._event("write", self._path, {"bytes": len(data)}):
             if self._fs.partial:
                 half = bytes(data)[: len(data) // 2]
